@@ -1,5 +1,6 @@
 import Drivers.Proto
 import Refine.Model.Shufflin
+import Refine.Model.DistIds
 import Refine.Gen.CellTables
 
 /-!
@@ -9,6 +10,10 @@ import Refine.Gen.CellTables
           node = g,p,h1,…,h(15+naux)    cell = grp,id,g1,…,gk
           -> per rank `ok old new nunused N node… C cell…` (nodes by global, cells by (group, vertices, id)),
              rounds joined by ` ## `, ranks by ` | `; `bad-op` when the world is refused (see `worldOk`)
+      idhist np | ev… | … (np rank groups)
+          ev = N<n> | a<g> (set-up: `initNGlobal`, `add`) | F | T | R<g> | W<g> (`Refine.Model.DistIds.LocalOp` through
+          `stepWorld`) | S (`stepWorld · .sync`)
+          -> per rank the id state `newN oldN nUnused T local:global … U unused…` before and after every S and at the end
 -/
 namespace Drivers.Dist2
 open Drivers.Proto Refine.Model.Dist Refine.Model.Shufflin
@@ -131,10 +136,95 @@ def opShufflin (np : Nat) (rest : List String) : String :=
     | _, _, _ => "bad-op"
   | _ => "bad-op"
 
+/-! ### id histories -/
+open Refine.Model.NodeIds Refine.Model.DistIds
+
+inductive Ev
+  | initN (n : Int) | addG (g : Int) | fresh | trial | rem (g : Int) | remW (g : Int) | sync
+
+def parseEv (first : Bool) (t : String) : Option Ev :=
+  if t == "S" then some .sync else if t == "F" then some .fresh else if t == "T" then some .trial else
+  match t.toList with
+  | c :: rest =>
+    match natTok (String.ofList rest) with
+    | some n =>
+      if n ≥ LIMN then none
+      else if c == 'a' then some (.addG n) else if c == 'R' then some (.rem n) else if c == 'W' then some (.remW n)
+      else if c == 'N' && first then some (.initN n) else none
+    | none => none
+  | [] => none
+
+def parseEvs : List String → Bool → Option (List Ev)
+  | [], _ => some []
+  | t :: rest, first => match parseEv first t, parseEvs rest false with
+    | some e, some es => some (e :: es)
+    | _, _ => none
+
+def fmtIdState (s : NodeIds) : String :=
+  join ([toString s.newN, toString s.oldN, toString s.nUnused, "T"] ++
+    (liveTable s).map (fun lg => s!"{lg.1}:{lg.2}") ++ ["U"] ++ (unusedArr s).map toString)
+
+/-- the events of rank `r` up to (not including) its next `S`; what is left after that `S` -/
+def segment : List Ev → List Ev × List Ev
+  | [] => ([], [])
+  | .sync :: rest => ([], rest)
+  | e :: rest => let p := segment rest; (e :: p.1, p.2)
+
+/-- one non-sync event of rank `r`: the set-up events act on the rank directly, the four local operations go through
+    `Refine.Model.DistIds.stepWorld` (`R<g>` / `W<g>`: `ref_node_local` first; a global that is not stored: nothing) -/
+def applyEv (w : World NodeIds) (r : Nat) (e : Ev) : World NodeIds :=
+  match w[r]? with
+  | none => w
+  | some s =>
+    match e with
+    | .initN n => w.set r (s.initNGlobal n)
+    | .addG g => w.set r (s.add g).2.2
+    | .fresh => stepWorld w (.op r .addFresh)
+    | .trial => stepWorld w (.op r .trial)
+    | .rem g => match s.localOf g with
+      | (.ok, node) => stepWorld w (.op r (.remove node))
+      | _ => w
+    | .remW g => match s.localOf g with
+      | (.ok, node) => stepWorld w (.op r (.removeWithoutGlobal node))
+      | _ => w
+    | .sync => w
+
+/-- `nsync` synchronisations; between two of them the ranks act independently: rank-major order -/
+def runHist : Nat → World NodeIds → List (List Ev) → List (List String) → List (List String)
+  | 0, w, evs, acc =>
+    let segs := evs.map segment
+    let w1 := (segs.zipIdx).foldl (fun w sr => sr.1.1.foldl (fun w e => applyEv w sr.2 e) w) w
+    (acc.zip w1).map fun x => x.1 ++ [fmtIdState x.2]
+  | k + 1, w, evs, acc =>
+    let segs := evs.map segment
+    let w1 := (segs.zipIdx).foldl (fun w sr => sr.1.1.foldl (fun w e => applyEv w sr.2 e) w) w
+    let w2 := stepWorld w1 .sync
+    let acc' := (acc.zip (w1.zip w2)).map fun x => x.1 ++ [fmtIdState x.2.1, fmtIdState x.2.2]
+    runHist k w2 (segs.map (·.2)) acc'
+
+def opIdHist (np : Nat) (rest : List String) : String :=
+  match splitBar rest with
+  | [] :: gs =>
+    if gs.length != np || np < 1 || gs.any (fun g => g.length > 4000) then "bad-op" else
+    match gs.mapM fun g => parseEvs g true with
+    | none => "bad-op"
+    | some evs =>
+      let nsyncs := evs.map fun es => (es.filter fun e => match e with | .sync => true | _ => false).length
+      match nsyncs with
+      | [] => "bad-op"
+      | n0 :: _ =>
+        if nsyncs.any (· != n0) then "bad-op" else
+        let outs := runHist n0 (List.replicate np NodeIds.create) evs (List.replicate np [])
+        fmtWorld (outs.map fun ds => " ## ".intercalate ds)
+  | _ => "bad-op"
+
 def step (_ : Unit) (line : String) : Unit × String :=
   match words line with
   | "shufflin" :: np :: rest => match natTok np with
     | some np => ((), opShufflin np rest)
+    | none => ((), "bad-op")
+  | "idhist" :: np :: rest => match natTok np with
+    | some np => ((), opIdHist np rest)
     | none => ((), "bad-op")
   | _ => ((), "bad-op")
 
